@@ -15,13 +15,20 @@ package state
 //   qe i e      GetEpochDataRaw(e, header i)   qc i e    GetConfigData(e, header i)
 //   ep i        GetEpochForBlock(header i)
 //   qall E      for every defined header, every epoch 0..E: qe and qc
-//   dump        both in-memory maps, sorted
+//   fin i       BlockState.SetFinalisedHash(hash of i, next round, 0) and, on success, what dot/digest does on
+//               the finalisation notice: FinalizeBABENextEpochData, FinalizeBABENextConfigData
+//   sqe i s c   GetSkippedEpochDataRaw(s, c, header i)     sqc i s c   GetSkippedConfigData(s, c, header i)
+//   upd i s c   UpdateSkippedEpochDefinitions(s, c, header i)   (dot/core calls it with the block being imported)
+//   dump        both in-memory maps, the persisted definitions and the first-slot key, sorted
+// An operation that WRITES BACK a choice made by Go's map order (RetrieveAndUpdate, Finalize…) is not executed
+// when the choice is not unique: it prints `amb` (the driver applies the same rule).
 // Every query runs under a watchdog of 2 s of process CPU time (observable `timeout`, the rest of the case
 // prints `skip`).  When the ranged-over Go map holds
 // several entries the answer may legitimately depend on Go's random map order: the query is then
 // repeated and the sorted set of distinct answers is printed (`3/7`).
 
 import (
+	"encoding/binary"
 	"errors"
 	"fmt"
 	"sort"
@@ -35,7 +42,9 @@ import (
 	"github.com/ChainSafe/gossamer/dot/telemetry"
 	"github.com/ChainSafe/gossamer/dot/types"
 	"github.com/ChainSafe/gossamer/internal/database"
+	"github.com/ChainSafe/gossamer/lib/blocktree"
 	"github.com/ChainSafe/gossamer/lib/common"
+	"github.com/ChainSafe/gossamer/pkg/scale"
 	"github.com/ChainSafe/gossamer/pkg/trie"
 )
 
@@ -106,6 +115,7 @@ type c26Node struct {
 	hdrs   map[int]*types.Header
 	byHash map[common.Hash]int
 	dead   bool
+	round  uint64
 }
 
 func c26NewNode(epochLen uint64) (*c26Node, error) {
@@ -300,6 +310,94 @@ func c26DumpMap[T types.NextEpochData | types.NextConfigDataV1](n *c26Node, m ne
 	return strings.Join(out, " ")
 }
 
+
+func c26FinErr(err error) string {
+	msg := err.Error()
+	switch {
+	case strings.Contains(msg, "cannot finalise unknown block"):
+		return "err-unknown"
+	case errors.Is(err, errSetIDLowerThanHighest):
+		return "err-setid"
+	case errors.Is(err, blocktree.ErrEndNodeNotFound):
+		return "err-range-end"
+	case errors.Is(err, blocktree.ErrStartNodeNotFound):
+		return "err-range-start"
+	case errors.Is(err, blocktree.ErrStartGreaterThanEnd):
+		return "err-range-greater"
+	case errors.Is(err, blocktree.ErrStartNotAncestorOfEnd):
+		return "err-range-notanc"
+	case errors.Is(err, blocktree.ErrNilBlockInRange):
+		return "err-range-nil"
+	case strings.Contains(msg, "failed to find block in unfinalised block map"):
+		return "err-missing"
+	case strings.Contains(msg, "failed to get finalised header"):
+		return "err-header"
+	}
+	return "err"
+}
+
+func c26EpochID(v types.NextEpochData) int   { return int(v.Randomness[0]) | int(v.Randomness[1])<<8 }
+func c26ConfigID(v types.NextConfigDataV1) int { return int(v.C1) }
+
+// c26Ambiguous tells whether Retrieve(epoch, header) on the given map can answer differently depending on
+// Go's map order (read-only: repeated lookups).
+func c26Ambiguous[T types.NextEpochData | types.NextConfigDataV1](n *c26Node, m nextEpochMap[T], id func(T) int,
+	epoch uint64, h *types.Header) bool {
+	if len(m[epoch]) < 2 {
+		return false
+	}
+	seen := map[int]bool{}
+	first := n.watch(func() string {
+		v, err := m.Retrieve(n.bs, epoch, h)
+		if err != nil {
+			return "err"
+		}
+		seen[id(*v)] = true
+		return "ok"
+	})
+	if first != "ok" {
+		return false
+	}
+	for i := 0; i < 3*c26Repeats; i++ {
+		if v, err := m.Retrieve(n.bs, epoch, h); err == nil {
+			seen[id(*v)] = true
+		}
+	}
+	return len(seen) > 1
+}
+
+func (n *c26Node) dbHas(key []byte) bool {
+	ok, err := n.es.db.Has(key)
+	return err == nil && ok
+}
+
+// c26DumpDB lists the persisted definitions under a key prefix as epoch=id.
+func c26DumpDB(n *c26Node, prefix []byte, id func([]byte) int) string {
+	it, err := n.es.db.NewPrefixIterator(prefix)
+	if err != nil {
+		return "err"
+	}
+	defer it.Release()
+	var ent []string
+	type kv struct {
+		e uint64
+		d int
+	}
+	var all []kv
+	for it.First(); it.Valid(); it.Next() {
+		k := it.Key()
+		if len(k) < 8 {
+			continue
+		}
+		all = append(all, kv{binary.LittleEndian.Uint64(k[len(k)-8:]), id(it.Value())})
+	}
+	sort.Slice(all, func(i, j int) bool { return all[i].e < all[j].e })
+	for _, x := range all {
+		ent = append(ent, fmt.Sprintf("%d=%d", x.e, x.d))
+	}
+	return strings.Join(ent, " ")
+}
+
 func (n *c26Node) op(f []string) string {
 	if n.dead {
 		return "skip"
@@ -365,6 +463,126 @@ func (n *c26Node) op(f []string) string {
 		}
 		n.es = es
 		return "ok"
+	case "fin":
+		if len(f) != 2 || arg(1) < 0 {
+			return "bad-op"
+		}
+		hash := common.Hash{0xEE, byte(arg(1)), byte(arg(1) >> 8)}
+		h := hdr(1)
+		if h != nil {
+			hash = h.Hash()
+		}
+		n.round++
+		if err := n.bs.SetFinalisedHash(hash, n.round, 0); err != nil {
+			return c26FinErr(err)
+		}
+		if h == nil {
+			return "ok E=err C=err"
+		}
+		// the choice Finalize… writes back: an announcing block that is in the header table
+		persisted := func(hashes []common.Hash) int {
+			k := 0
+			for _, x := range hashes {
+				if ok, err := n.bs.HasHeaderInDatabase(x); err == nil && ok {
+					k++
+				}
+			}
+			return k
+		}
+		out := "ok"
+		next := uint64(0)
+		known := false
+		if h.Number != 0 {
+			if e, err := n.es.GetEpochForBlock(h); err == nil {
+				next, known = e+1, true
+			}
+		}
+		var hs []common.Hash
+		for x := range n.es.nextEpochData[next] {
+			hs = append(hs, x)
+		}
+		switch {
+		case known && !n.dbHas(epochDataKey(next)) && persisted(hs) > 1:
+			out += " E=amb"
+		case n.es.FinalizeBABENextEpochData(h) != nil:
+			out += " E=err"
+		default:
+			out += " E=ok"
+		}
+		hs = nil
+		for x := range n.es.nextConfigData[next] {
+			hs = append(hs, x)
+		}
+		switch {
+		case known && !n.dbHas(configDataKey(next)) && persisted(hs) > 1:
+			out += " C=amb"
+		case n.es.FinalizeBABENextConfigData(h) != nil:
+			out += " C=err"
+		default:
+			out += " C=ok"
+		}
+		return out
+	case "sqe", "sqc", "upd":
+		h := hdr(1)
+		if len(f) != 4 || h == nil || arg(2) < 0 || arg(3) < 0 {
+			return "bad-op"
+		}
+		sk, cu := uint64(arg(2)), uint64(arg(3))
+		ambE := sk != 0 && !n.dbHas(epochDataKey(sk)) && c26Ambiguous(n, n.es.nextEpochData, c26EpochID, sk, h)
+		ambC := sk != 0 && !n.dbHas(configDataKey(sk)) && c26Ambiguous(n, n.es.nextConfigData, c26ConfigID, sk, h)
+		if n.dead {
+			return "timeout"
+		}
+		switch f[0] {
+		case "sqe":
+			if ambE {
+				return "amb"
+			}
+			return n.watch(func() string {
+				d, err := n.es.GetSkippedEpochDataRaw(sk, cu, h)
+				if err != nil {
+					return c26ErrClass(err)
+				}
+				return c26ID(int(d.Randomness[0]) | int(d.Randomness[1])<<8)
+			})
+		case "sqc":
+			if ambC {
+				return "amb"
+			}
+			// without a definition for the skipped epoch on this fork the call falls back to
+			// GetConfigData(skipped-1), a read-only lookup whose answer may depend on the map order
+			fallback := false
+			if sk != 0 && !n.dbHas(configDataKey(sk)) {
+				_, err := n.es.nextConfigData.Retrieve(n.bs, sk, h)
+				fallback = errors.Is(err, ErrEpochNotInMemory) || errors.Is(err, errHashNotInMemory)
+			}
+			got := n.watch(func() string {
+				d, err := n.es.GetSkippedConfigData(sk, cu, h)
+				if err != nil {
+					return c26ErrClass(err)
+				}
+				return c26ID(int(d.C1))
+			})
+			if !fallback || n.dead {
+				return got
+			}
+			set := n.query(true, sk-1, h)
+			for _, x := range strings.Split(set, "/") {
+				if x == got {
+					return set
+				}
+			}
+			return got + "!" + set
+		}
+		if ambE || ambC {
+			return "amb"
+		}
+		return n.watch(func() string {
+			if err := n.es.UpdateSkippedEpochDefinitions(sk, cu, h); err != nil {
+				return "err"
+			}
+			return "ok"
+		})
 	case "qe", "qc":
 		h := hdr(1)
 		if len(f) != 3 || h == nil || arg(2) < 0 {
@@ -403,9 +621,26 @@ func (n *c26Node) op(f []string) string {
 		}
 		return strings.Join(rows, " ")
 	case "dump":
-		return "E[" + c26DumpMap(n, n.es.nextEpochData, func(v types.NextEpochData) int {
-			return int(v.Randomness[0]) | int(v.Randomness[1])<<8
-		}) + "] C[" + c26DumpMap(n, n.es.nextConfigData, func(v types.NextConfigDataV1) int { return int(v.C1) }) + "]"
+		fsn, err := n.bs.getFirstNonOriginSlotNumber()
+		if err != nil {
+			return "err"
+		}
+		return "E[" + c26DumpMap(n, n.es.nextEpochData, c26EpochID) + "] C[" +
+			c26DumpMap(n, n.es.nextConfigData, c26ConfigID) + "] DE[" +
+			c26DumpDB(n, epochDataPrefix, func(v []byte) int {
+				var d types.EpochDataRaw
+				if scale.Unmarshal(v, &d) != nil {
+					return -1
+				}
+				return int(d.Randomness[0]) | int(d.Randomness[1])<<8
+			}) + "] DC[" +
+			c26DumpDB(n, configDataPrefix, func(v []byte) int {
+				var d types.ConfigData
+				if scale.Unmarshal(v, &d) != nil {
+					return -1
+				}
+				return int(d.C1)
+			}) + fmt.Sprintf("] S=%d", fsn)
 	}
 	return "bad-op"
 }
@@ -452,6 +687,8 @@ func c26Gen(r *vhRng) string {
 	maxEpoch := 1
 	fresh := func() int { nextData++; return nextData - 1 }
 	chainy := r.Intn(3) // 0: bushy, 1: mixed, 2: long chains
+	finalising := r.Chance(3, 5)
+	skipping := r.Chance(2, 5)
 	last := 0
 	if r.Chance(1, 10) {
 		ops = append(ops, fmt.Sprintf("dbc %d %d", 1+r.Intn(3), 900+r.Intn(9)))
@@ -526,6 +763,44 @@ func c26Gen(r *vhRng) string {
 		}
 		if r.Chance(1, 30) { // re-import
 			ops = append(ops, fmt.Sprintf("add %d %d %d", id, p, slot))
+		}
+		// finalisation: mostly an imported block on the newest chain (the rest is pruned), sometimes anything
+		if finalising && r.Chance(1, 4) {
+			tgt := last
+			for k := r.Intn(3); k > 0 && blks[tgt].parent > 0; k-- {
+				tgt = blks[tgt].parent
+			}
+			switch r.Intn(10) {
+			case 0:
+				tgt = ids[r.Intn(len(ids))]
+			case 1:
+				tgt = 50 + r.Intn(3)
+			}
+			ops = append(ops, fmt.Sprintf("fin %d", tgt))
+			switch r.Intn(4) {
+			case 0:
+				ops = append(ops, fmt.Sprintf("qall %d", maxEpoch))
+			case 1:
+				ops = append(ops, "dump")
+			case 2:
+				ops = append(ops, "restart")
+			}
+		}
+		// skipped epochs: asked with the newest header (imported or not yet) or any other
+		if skipping && r.Chance(1, 4) {
+			tgt := id
+			if r.Chance(1, 4) {
+				tgt = ids[r.Intn(len(ids))]
+			}
+			sk := r.Intn(maxEpoch + 1)
+			cu := sk + r.Intn(3)
+			if r.Chance(1, 10) && sk > 0 {
+				cu = sk - 1
+			}
+			ops = append(ops, fmt.Sprintf("%s %d %d %d", []string{"upd", "upd", "sqe", "sqc"}[r.Intn(4)], tgt, sk, cu))
+			if cu+1 > maxEpoch && cu+1 <= 9 {
+				maxEpoch = cu + 1
+			}
 		}
 	}
 	if r.Chance(1, 6) {
